@@ -64,6 +64,11 @@ def gen(tier, seed, info):
             if rnd.random() < 0.7:
                 n, p = rnd_prog(rnd, nl, nc)
                 prs.append("PR %d %d %s" % (w, n, p))
+        # handlers that bracket their drawing in savepen / save ... restore (all of it, or every call)
+        if rnd.random() < 0.35:
+            for w in range(0, sh.next_id):
+                if rnd.random() < 0.6:
+                    prs.append("BR %d %d" % (w, rnd.choice([1, 1, 2, 3, 4, 4, 5, 7])))
         case = wingen.header(rnd, nl, nc) + " " + " ".join(prs + ops) + " F"
         for k in wingen.op_kinds(case):
             kinds[k] = kinds.get(k, 0) + 1
